@@ -1,1 +1,64 @@
-From VP Require Import Base.Tactics Coord.Model Coord.Route Coord.RouteProps.
+From Coq Require Import String Ascii.
+From VP Require Import Base.Tactics Coord.Model Coord.Route Coord.RouteProofs Coord.RouteProps.
+Open Scope N_scope.
+
+Check (C34_first_matching_route :
+  forall routes pipelines ty,
+    find_target routes pipelines ty =
+    match find (fun r => existsb (event_type_matches ty) (r_patterns r)) routes with
+    | Some r => Some (r_to r)
+    | None => hd_error pipelines
+    end).
+Print Assumptions C34_first_matching_route.
+Check (C34_wildcard_is_prefix :
+  forall ty prefix, event_type_matches ty (prefix ++ "*")%string = true <-> exists rest, ty = (prefix ++ rest)%string).
+Print Assumptions C34_wildcard_is_prefix.
+Check (C34_exact_otherwise :
+  forall ty pat, (forall prefix, pat <> (prefix ++ "*")%string) -> (event_type_matches ty pat = true <-> ty = pat)).
+Print Assumptions C34_exact_otherwise.
+Check (C34_replica_depends_on_key_text_only :
+  forall hash st l rg k fields,
+    keeps l rg st -> rg_key rg = Some k ->
+    fst (route_event hash st l fields) = hash_replica hash rg (key_string fields k)).
+Print Assumptions C34_replica_depends_on_key_text_only.
+Check (C34_hash_group_unchanged_by_single :
+  forall hash st l rg k ty fields,
+    keeps l rg st -> rg_key rg = Some k -> keeps l rg (snd (resolve_single hash st ty fields))).
+Print Assumptions C34_hash_group_unchanged_by_single.
+Check (C34_hash_group_unchanged_by_batch_event :
+  forall hash st l rg k ty data,
+    keeps l rg st -> rg_key rg = Some k -> keeps l rg (snd (route_batch_event hash st ty data))).
+Print Assumptions C34_hash_group_unchanged_by_batch_event.
+Check (C34_same_key_text_single_and_batch :
+  forall v k (other1 : list (string * jval)) (other2 : list (string * rvalue)),
+    field_get other1 k = None -> field_get (batch_fields other2) k = None ->
+    key_string (other1 ++ opt_field k (single_json v)) k =
+    key_string (batch_fields (other2 ++ opt_field k (batch_value v))) k).
+Print Assumptions C34_same_key_text_single_and_batch.
+Check (C34_sticky :
+  forall hash l rg k st1 st2 v other1 other2,
+    keeps l rg st1 -> keeps l rg st2 -> rg_key rg = Some k ->
+    field_get other1 k = None -> field_get (batch_fields other2) k = None ->
+    fst (route_event hash st1 l (other1 ++ opt_field k (single_json v))) =
+    fst (route_event hash st2 l (batch_fields (other2 ++ opt_field k (batch_value v))))).
+Print Assumptions C34_sticky.
+Check (C34_sticky_nonvacuous :
+  let st := init_state [] [mkRSpec 1 3 (Some "k"%string)] [true; true; true] in
+  exists rg, keeps 16 rg st /\ rg_key rg = Some "k"%string /\ length (rg_names rg) = 3%nat /\
+    fst (resolve_single str_hash st "A" [("seq"%string, JInt 1); ("k"%string, JBig 18446744073709551615 "1.8446744073709552e+19")]) =
+    fst (route_batch_event str_hash st "A" [("seq"%string, VJson (JInt 2)); ("k"%string, VJson (JFloat "1.8446744073709552e+19"))])).
+Print Assumptions C34_sticky_nonvacuous.
+Check (C34_round_robin_indices :
+  forall hash evs rg,
+    rg_key rg = None -> rg_names rg <> [] -> rg_counter rg + N.of_nat (length evs) < M64 ->
+    rr_run hash rg evs =
+    map (fun i => nth (N.to_nat i) (rg_names rg) 0)
+        (rr_indices (rg_counter rg) (N.of_nat (length (rg_names rg))) (length evs))).
+Print Assumptions C34_round_robin_indices.
+Check (C34_round_robin_balanced :
+  forall c0 n m i j, 0 < n -> i < n -> j < n ->
+    load i (rr_indices c0 n m) <= load j (rr_indices c0 n m) + 1).
+Print Assumptions C34_round_robin_balanced.
+Check (C34_round_robin_example :
+  rr_indices 7 3 8 = [1; 2; 0; 1; 2; 0; 1; 2] /\ load 0 (rr_indices 7 3 8) = 2 /\ load 1 (rr_indices 7 3 8) = 3).
+Print Assumptions C34_round_robin_example.
